@@ -215,6 +215,20 @@ CHECKS['C07'] = dict(
          'correspondence inputs. Two heap overflows fixed in /repo (c9bc15e, 51c058c). Trusted: Lean kernel + 3 axioms; harness; '
          'operator new[] 4-byte aligned; CRC-32 as in Model/Crc32.lean.')
 
+CHECKS['C17'] = dict(
+    text='Lean 4 theorems over arbitrary histories of integer conversions (induction; reachable state = fresh class plus one hidden '
+         'member per unknown value): lenient conversion preserves the value and flags it iff undefined, strict conversion of an '
+         'undefined value is refused in every reachable state, iteration/length/defined-name and ordinary-name lookups are '
+         'history-independent (the only lookup that can change is of a hidden name _U_<v>), bit-mask set->mask->set round trip for '
+         'distinct values >= offset; instantiated for every IntEnum subclass and mask class of the package through tables '
+         'regenerated from the working tree and re-decided per run; the model is tied to enum_utils.py/aenum by comparing every '
+         'answer of operation scripts on the real classes in fresh processes.',
+    ref='4 C17', technique='Lean 4 invariant proof over conversion histories + kernel-decided per-class facts + correspondence on forked real classes',
+    note='Trusted: Lean kernel; propext, Classical.choice, Quot.sound; translator as reader of names/ints (AST cross-check); harness. '
+         'Histories exclude the lenient *string* conversion, which adds a visible member by design (compared, not proved stable). '
+         'Hidden-name lookups (E[\'_U_3\'] after a lenient 3) are not counted as name lookups of the enumeration. ASCII names; masks '
+         'are naturals. Quick tier samples the 16-bit range; thorough enumerates it on the real classes.')
+
 NOT_APPLICABLE = []
 
 
